@@ -63,6 +63,11 @@ type c11Sess struct {
 	got       []wsMsg
 	problems  []string
 	polls408  int
+	// backendCloses: the backend closes the websocket after its last message
+	// (such a session carries no client messages)
+	backendCloses bool
+	browser       int
+	afterClose    time.Duration
 }
 
 // worldC11: one or two concurrent shimmed websocket sessions; both directions
@@ -79,13 +84,28 @@ func worldC11(w *World) {
 	if thorough {
 		maxN = 120
 	}
-	nSess := t.Pick("sessions", 3, 2) + 1
+	// one or two browsers, each running one or two sessions one after the other,
+	// so that sessions are closed and opened while others are in use
+	nBrowsers := t.Pick("sessions", 3, 2) + 1
+	nSess := 0
+	var owner []int
+	for b := 0; b < nBrowsers; b++ {
+		k := t.Pick("rounds", 3, 1) + 1
+		for j := 0; j < k; j++ {
+			owner = append(owner, b)
+		}
+		nSess += k
+	}
 	pauses := []time.Duration{0, 0, time.Millisecond, 100 * time.Millisecond, 21 * time.Second}
 	sess := make([]*c11Sess, nSess)
 	for si := range sess {
-		ss := &c11Sess{idx: si}
+		ss := &c11Sess{idx: si, browser: owner[si]}
 		nc := t.Range(0, maxN, "clientmsgs")
 		ns := t.Range(0, maxN, "servermsgs")
+		if t.Rare(1, 4, "backendcloses") {
+			ss.backendCloses = true
+			nc = 0
+		}
 		ss.cmsgs = genWSMessages(t, nc, thorough, inject, fmt.Sprintf("c%d", si))
 		ss.smsgs = genWSMessages(t, ns, thorough, false, fmt.Sprintf("s%d", si))
 		for i := 0; i < len(ss.cmsgs); {
@@ -102,10 +122,21 @@ func worldC11(w *World) {
 		for range ss.smsgs {
 			ss.sendPause = append(ss.sendPause, pauses[t.Pick("sendpause", 6, 4, 2, 2, 1)])
 		}
+		// the browser's last session is followed by time for the close to reach the backend
+		ss.afterClose = 2 * time.Second
+		if si+1 < nSess && owner[si+1] == owner[si] && t.Rare(1, 2, "reopen-at-once") {
+			ss.afterClose = 0
+		}
 		sess[si] = ss
 	}
 	startProxy(w)
 	wb := startWSBackend(w)
+	if t.Rare(1, 4, "stubborn") {
+		wb.Stubborn = func(string) bool { return true }
+		w.Probe("backend_ignores_closing_handshake")
+	}
+	hsDelay := []time.Duration{0, 0, 30 * time.Millisecond, time.Second}[t.Choice(4, "handshakedelay")]
+	wb.rb.Delay = func(r *http.Request) time.Duration { return hsDelay }
 	wb.OnOpen = func(s *wsSession) {
 		var si int
 		if _, err := fmt.Sscanf(s.Path, "/sock%d", &si); err != nil || si < 0 || si >= nSess {
@@ -120,6 +151,9 @@ func worldC11(w *World) {
 				return
 			}
 		}
+		if ss.backendCloses {
+			s.closeFromBackend(ss.idx%2 == 0)
+		}
 	}
 	args := []string{"-shim-websockets", "-shim-path=shim"}
 	if inject {
@@ -132,11 +166,8 @@ func worldC11(w *World) {
 		effV = 0
 	}
 	var all sync.WaitGroup
-	for _, ss := range sess {
-		ss := ss
-		all.Add(1)
-		w.K.Spawn(fmt.Sprintf("browser%d", ss.idx), func() {
-			defer all.Done()
+	runSession := func(ss *c11Sess) {
+		{
 			problem := func(f string, a ...interface{}) {
 				ss.mu.Lock()
 				ss.problems = append(ss.problems, fmt.Sprintf(f, a...))
@@ -204,6 +235,11 @@ func worldC11(w *World) {
 							return
 						}
 					default:
+						if st == 400 && ss.backendCloses {
+							// the session was reported closed
+							w.Probe("backend_closed_after_last_message")
+							return
+						}
 						problem("poll: unexpected status %d", st)
 						return
 					}
@@ -212,10 +248,27 @@ func worldC11(w *World) {
 			wg.Wait()
 			// let the last client messages reach the backend, then close
 			time.Sleep(2 * time.Second)
-			if st, err := sc.close(rep.ID); err != nil || st != 200 {
+			if st, err := sc.close(rep.ID); err != nil || (st != 200 && !(ss.backendCloses && st == 400)) {
 				problem("close: status %d err %v", st, err)
 			}
-			time.Sleep(2 * time.Second)
+			time.Sleep(ss.afterClose)
+		}
+	}
+	for b := 0; b < nBrowsers; b++ {
+		b := b
+		all.Add(1)
+		w.K.Spawn(fmt.Sprintf("browser%d", b), func() {
+			defer all.Done()
+			k := 0
+			for _, ss := range sess {
+				if ss.browser == b {
+					runSession(ss)
+					k++
+				}
+			}
+			if k > 1 && nBrowsers > 1 {
+				w.Probe("session_opened_after_another_closed")
+			}
 		})
 	}
 	w.K.Spawn("controller", func() {
@@ -224,7 +277,7 @@ func worldC11(w *World) {
 	})
 	w.K.Horizon = 3 * time.Hour
 	w.K.MaxSteps = 3000000
-	w.Sample = map[string]interface{}{"sessions": nSess, "client_msgs": len(sess[0].cmsgs), "server_msgs": len(sess[0].smsgs), "batches": len(sess[0].batches), "version": version, "injection": inject}
+	w.Sample = map[string]interface{}{"browsers": nBrowsers, "sessions": nSess, "client_msgs": len(sess[0].cmsgs), "server_msgs": len(sess[0].smsgs), "batches": len(sess[0].batches), "version": version, "injection": inject}
 	w.OnCheck(func() {
 		for _, e := range w.K.Exits {
 			w.Violation("crash", "node %s exited: %s", e.Node, e.Msg)
@@ -272,18 +325,22 @@ func worldC11(w *World) {
 				w.Violation("session", "no backend websocket for session %d", ss.idx)
 				continue
 			}
+			s.mu.Lock()
+			closed := s.Closed
+			recv := append([]wsMsg(nil), s.Recv...)
+			s.mu.Unlock()
 			cmp(ss.smsgs, ss.got, "server to client")
 			if !inject {
-				cmp(ss.cmsgs, s.Recv, "client to server")
+				cmp(ss.cmsgs, recv, "client to server")
 			} else {
-				if len(ss.cmsgs) != len(s.Recv) {
-					w.Violation("delivery", "client to server: number of messages differs | sent %d received %d", len(ss.cmsgs), len(s.Recv))
+				if len(ss.cmsgs) != len(recv) {
+					w.Violation("delivery", "client to server: number of messages differs | sent %d received %d", len(ss.cmsgs), len(recv))
 				}
-				for i := 0; i < len(ss.cmsgs) && i < len(s.Recv); i++ {
-					checkInjected(w, i, ss.cmsgs[i], s.Recv[i], effV)
+				for i := 0; i < len(ss.cmsgs) && i < len(recv); i++ {
+					checkInjected(w, i, ss.cmsgs[i], recv[i], effV)
 				}
 			}
-			if !s.Closed {
+			if !closed {
 				w.Violation("close", "the backend websocket was not closed after the client closed the shim session")
 			}
 			if ss.polls408 > 0 {
@@ -298,7 +355,7 @@ func worldC11(w *World) {
 				w.Probe("both_directions")
 			}
 		}
-		if nSess > 1 {
+		if nBrowsers > 1 {
 			w.Probe("concurrent_sessions")
 		}
 	})
